@@ -195,6 +195,23 @@ mutual
     | t, x :: xs => chunksTy t x ++ chunksElems t xs
 end
 
+/-- byte length of each member's own encoding (without the padding before it), in
+    declaration order -/
+def memberLens (all : List Member) (allv : List Val) : List Member → List Val → List Nat
+  | .mk _ t k :: r, v :: vs =>
+    (match k, v with
+     | .plain, .sizer => sizeTy t
+     | .plain, v => clen (chunksTy t v)
+     | .optional, _ => max flagSize (alignTy t) + sizeTy t
+     | .fixed c, _ => c * sizeTy t
+     | .limited _ c, _ => c * sizeTy t
+     | .dyn _, .arr xs => clen (chunksElems t xs)
+     | .greedy, .arr xs => clen (chunksElems t xs)
+     | .dyn _, .bytes b => b.length
+     | .greedy, .bytes b => b.length
+     | _, _ => 0) :: memberLens all allv r vs
+  | _, _ => []
+
 /-! ### "a greedy array whose tail does not end on the enclosing message's alignment
     boundary" is the documented exception of the round-trip guarantee: trailing
     padding is indistinguishable from elements.  `galTy t v` says that no padding
